@@ -54,6 +54,7 @@ func NewServer(parse ParseFn, options ...OptionFn) (*Server, error) {
 // Server contains options for listening to an address.
 type Server struct {
 	closing         atomic.Bool
+	mu              sync.Mutex
 	wg              sync.WaitGroup
 	logger          *slog.Logger
 	types           *pgtype.Map
@@ -174,12 +175,31 @@ func (srv *Server) serve(ctx context.Context, conn net.Conn) error {
 
 // Close gracefully closes the underlaying Postgres server.
 func (srv *Server) Close() error {
-	if srv.closing.Load() {
-		return nil
+	// NOTE: the closing transition is guarded by the same mutex as the
+	// admission of new commands, the closer channel is closed exactly once and
+	// no command is admitted once the transition has been made.
+	srv.mu.Lock()
+	if !srv.closing.Load() {
+		srv.closing.Store(true)
+		close(srv.closer)
 	}
+	srv.mu.Unlock()
 
-	srv.closing.Store(true)
-	close(srv.closer)
 	srv.wg.Wait()
 	return nil
+}
+
+// admit reports whether a new command may be handled. The server wait group is
+// increased by one for every admitted command, [sync.WaitGroup.Done] has to be
+// called once the command has been handled.
+func (srv *Server) admit() bool {
+	srv.mu.Lock()
+	defer srv.mu.Unlock()
+
+	if srv.closing.Load() {
+		return false
+	}
+
+	srv.wg.Add(1)
+	return true
 }
